@@ -50,7 +50,98 @@ pub fn get(id: &str, tier: Tier) -> Option<CheckDef> {
     })
 }
 
-/// Self-tests of the reference models (run in setup): a failing self-test is a harness error.
+/// Self-tests of the reference models against known answers (run by bin/setup): a failing
+/// self-test is a harness error (exit 2), never a verdict about gram.
 pub fn selftest() -> i32 {
-    0
+    use crate::refs::{chart, core, lex, listing};
+    use crate::sast;
+    use crate::typed::{self, RefEval, RefType, RefValue};
+    use num_bigint::BigInt;
+    let mut failures: Vec<String> = vec![];
+    let mut check = |name: &str, ok: bool| {
+        if !ok {
+            failures.push(name.to_owned());
+        }
+    };
+
+    // R-lex.
+    let l = lex::lex("iff int2 type_ if -> => == <= >= 007 x٣ # c\n;");
+    let kinds: Vec<String> = l.toks.iter().map(|t| t.tok.plain()).collect();
+    check("lex: keywords only as whole words, two-character operators", kinds == ["iff", "int2", "type_", "if", "->", "=>", "==", "<=", ">=", "7", "x٣", ";"]);
+    check("lex: unexpected symbols", lex::lex("a $ é ٣").unexpected == vec![2, 7]);
+    check("lex: decimal", lex::decimal("340282366920938463463374607431768211456") == BigInt::from(u128::MAX) + 1);
+    check("lex: line-break rule", lex::expected_stream("a\nb\n+ c\n").map(|t| t.len()) == Some(5));
+
+    // R-chart over the repository's grammar, and the printer.
+    let g = chart::load_repo_grammar();
+    let parse = |src: &str| {
+        let toks = lex::expected_stream(src).expect("self-test source lexes");
+        chart::parse_tokens(&g, &toks)
+    };
+    let (c, s) = parse("1 + 2 * (3 - 4 / 5)");
+    check("chart: one derivation for an arithmetic sentence", c == 1);
+    check("chart: precedence", s.map(|s| sast::print_plain(&s.unparen())) == Some("1 + 2 * ( 3 - 4 / 5 )".to_owned()));
+    let (_, s) = parse("f x y - a - b");
+    check(
+        "chart: left association",
+        matches!(s, Some(sast::S::Bin(sast::Op::Sub, ref l, _)) if matches!(**l, sast::S::Bin(sast::Op::Sub, ref ll, _) if matches!(**ll, sast::S::App(ref f, _) if matches!(**f, sast::S::App(..))))),
+    );
+    check("chart: non-sentences", parse("(5 else 7)").0 == 0 && parse("x = 1").0 == 0 && parse("a * b -> c").0 == 0);
+    check("chart: nullable annotation, flattened lets", matches!(parse("x = 1; y : int = 2; x").1, Some(sast::S::Let { ref defs, .. }) if defs.len() == 2));
+
+    // R-cbv and R-core on explicit programs with known answers.
+    let prog = |src: &str| -> sast::S { parse(src).1.expect("self-test program is a sentence").flatten().unparen() };
+    let eval_of = |src: &str| {
+        let s = prog(src);
+        let (_, k, _) = typed::ref_infer(&s, true);
+        typed::ref_eval(&k.unwrap(), 5_000_000).0
+    };
+    check(
+        "cbv: factorial 30",
+        eval_of("f : (int -> int) = (x : int) => if x == 0 then 1 else x * f (x - 1); f 30")
+            == RefEval::Value(RefValue::Int("265252859812191058636308480000000".parse().unwrap())),
+    );
+    check("cbv: call by value evaluates the argument", eval_of("((x : int) => 7) (1 / 0)") == RefEval::DivisionByZero);
+    check("cbv: only the chosen branch", eval_of("if true then 3 else 1 / 0") == RefEval::Value(RefValue::Int(3.into())));
+    check("cbv: definitions in order", matches!(eval_of("x : int = y + 1; y : int = 2; x"), RefEval::Stuck(_)));
+    for (a, b) in [(7i128, 2i128), (-7, 2), (7, -2), (-7, -2), (0, 5), (i128::from(i64::MAX) * 4, -3)] {
+        check("cbv: truncated division agrees with i128", core::truncated_div(&BigInt::from(a), &BigInt::from(b)) == BigInt::from(a / b));
+    }
+    let ty_of = |src: &str| typed::ref_infer(&prog(src), true);
+    let shows = |src: &str, want: &str| {
+        let (mut tc, _, r) = ty_of(src);
+        match r {
+            RefType::Ok(t) => tc.show(&t) == want,
+            _ => false,
+        }
+    };
+    check("core: polymorphic identity", shows("id : ((a : type) -> a -> a) = (a : type) => (x : a) => x; id int 3", "int"));
+    check("core: dependent result", shows("(a : type) => (x : a) => x", "( a : type ) -> a -> a"));
+    check("core: type-level conditional", shows("tyf : (bool -> type) = (b : bool) => if b then int else bool; x : tyf true = 3; x + 1", "int"));
+    check("core: forward alias", shows("(y : t = 4; t : type = u; u : type = int; y) + 1", "int"));
+    for bad in ["1 + true", "if 3 then 1 else 2", "if true then 1 else false", "5 5", "((x : int) => x) true", "x : bool = 5; x", "(x : 5) => x", "x : 5 = 4; x", "((x : int) -> 5) "] {
+        check(&format!("core: rejects {bad}"), matches!(ty_of(bad).2, RefType::Ill(..)));
+    }
+    check("core: holes are outside the domain", matches!(ty_of("x => x").2, RefType::Hole));
+
+    // R-listing.
+    let text = "a = 1\n  é + (b\n    < 2)\n";
+    let start = text.find('(').unwrap();
+    let end = text.find(')').unwrap() + 1;
+    let want = listing::expected(text, start, end);
+    check("listing: lines and character columns", want.len() == 2 && want[0].number == 2 && want[0].full == vec![6, 7] && want[1].number == 3 && want[1].core == vec![4, 5, 6, 7]);
+    check(
+        "listing: parser of printed excerpts",
+        listing::parse_listing("2 \u{2502}   é + (b\n  \u{250a}       \u{203e}\u{203e}\n3 \u{2502}     < 2)\n        \u{203e}\u{203e}\u{203e}\u{203e}").is_some_and(|l| l.len() == 2 && l[0].marked == vec![6, 7] && l[1].marked == vec![4, 5, 6, 7]),
+    );
+
+    if failures.is_empty() {
+        println!("selftest: all reference-model self-tests pass");
+        0
+    } else {
+        for f in &failures {
+            eprintln!("harness error: self-test failed: {f}");
+        }
+        2
+    }
 }
